@@ -846,6 +846,18 @@ class Program:
         self.param_t[(g.qual, p)] = t if old is None else union(old, t)
 
     # ------------------------------------------------------------ call resolution
+    def _class_table(self, cls, name):
+        """class attribute `name` (own or inherited) when it is a literal and never stored on an instance"""
+        for c in (getattr(cls, 'mro', None) or [cls]):
+            v = c.class_attrs.get(name)
+            if v is not None:
+                for g in self.m.all_funcs():
+                    for n in ast.walk(g.node):
+                        if isinstance(n, ast.Attribute) and n.attr == name and isinstance(n.ctx, (ast.Store, ast.Del)):
+                            return None
+                return v
+        return None
+
     def const_strings(self, e, f):
         """the string constants an expression can stand for: a literal, or a loop variable ranging over
         a literal tuple / a module-level constant tuple of strings; None when not decidable"""
@@ -858,6 +870,10 @@ class Program:
         def strings_of(v):
             if isinstance(v, ast.Name):
                 v = module_constants(f.module).get(v.id)
+            elif isinstance(v, ast.Attribute) and isinstance(v.value, ast.Name) and v.value.id in ('self', 'cls') and \
+                    f.cls is not None:
+                # a class-level table of names: self._steps = ('a', 'b') in the class body (or a base class)
+                v = self._class_table(f.cls, v.attr)
             if isinstance(v, (ast.Tuple, ast.List)) and v.elts and all(
                     isinstance(x, ast.Constant) and isinstance(x.value, str) for x in v.elts):
                 return [x.value for x in v.elts]
